@@ -1,7 +1,7 @@
 """Check context: builds, proof-obligation accounting, verdict, evidence."""
 import os, re, json, time, glob, subprocess, hashlib
 from .common import *
-from . import impl, model
+from . import impl, model, tables
 
 FORBIDDEN = re.compile(r'\b(Admitted|admit|Axiom|Axioms|Parameter|Parameters|Conjecture|Conjectures|Admit Obligations)\b|Unset Guard Checking|Unset Positivity Checking|Unset Universe Checking|bypass_check|type-in-type|impredicative-set')
 ALLOWED_AXIOMS = set()   # the development is axiom-free; anything printed by Print Assumptions is an error
@@ -36,6 +36,14 @@ class Ctx:
         rel = 'Props/%s.v' % props_file
         vo = rel + 'o'
         t = time.time()
+        tok, tproblems = tables.regenerate()
+        if not tok:
+            self.notes['translator_problems'] = tproblems
+            src0 = open(os.path.join(COQDIR, rel)).read()
+            th0 = re.findall(r'^\s*(?:Theorem|Lemma|Corollary)\s+([A-Za-z0-9_\']+)', src0, re.M)
+            self.coverage['obligations'] += len(th0)
+            self.coverage['checker_cmd'] = 'tools/gv/tables.py (translator) failed before make'
+            return {'ok': False, 'theorems': th0, 'problems': ['translator: %s' % tproblems], 'log': ''}
         p = model.coq_make([vo])
         out = p.stdout.decode('utf-8', 'replace') + p.stderr.decode('utf-8', 'replace')
         src = open(os.path.join(COQDIR, rel)).read()
